@@ -105,7 +105,11 @@ IntGate(s, r) ==
                  \E q \in SeqSet(p.memdiff) \cup { <<a, Rd(s, a).v, Rd(s, a).m>> : a \in {Wrap(r6), Wrap(r6 + 1)} } :
                     q[1] = Wrap(r6 + 1) /\ q[2] = s.psr
      ELSE \* not taken: the step is an ordinary instruction step; the priority is not raised by it
-          (r.res = "ok" /\ p.icount = s.icount) => (p.pc = s.pc \/ s.flags.real)
+          /\ (r.res = "ok" /\ p.icount = s.icount) => (p.pc = s.pc \/ s.flags.real)
+          \* ... and a TRAP keeps the priority level of its caller: a service routine called from a
+          \* handler must not open the gate for requests of the handler's own level
+          /\ (r.res = "ok" /\ p.icount = s.icount + 1 /\ s.pc < IO_START /\ Slice(Rd(s, s.pc).v, 12, 16) = 15)
+                => Prio(p.psr) = Prio(s.psr)
 
 \* C14 inside the specification: from this very state, the strict and the
 \* non-strict step either agree or the strict one fails with a strict error
